@@ -82,7 +82,7 @@ def run(ck, ix, tier):
                 ok, why = True, "frozen exception: from_string edits the private result of the evaluation before returning it"
             ck.check(ok, "G-OWN", f"copy-on-write|{key}", f.loc(node), why,
                      f"`{norm(node).splitlines()[0]}` writes `{recv}.{fld}`, and `{recv}` is not an object created in this function (operand mutated / shared storage)")
-    ck.floor("G-OWN", n_writes, 20, "writes of representation fields in UnitsContainer/ParserHelper")
+    ck.floor("G-OWN", n_writes, 10, "writes of representation fields in UnitsContainer/ParserHelper")
     # __copy__ must not share the dict
     for ci in (uc,):
         f = ci.methods["__copy__"]
@@ -136,7 +136,7 @@ def run(ck, ix, tier):
                              "the copied hash is reset before the modified copy is returned",
                              f"`{cfg.nodes[w].text()}` modifies the copy's exponents and a path returns it with the original's cached hash (== and hash would disagree with the contents)",
                              witness(cfg, bad))
-    ck.floor("G-PAIR", n_inv, 6, "writes of a copied container's dict")
+    ck.floor("G-PAIR", n_inv, 3, "writes of a copied container's dict")
     f = uc.methods["__setstate__"]
     ck.check(any(isinstance(a, ast.Assign) and any(dotted(t) == "self._hash" for t in a.targets) and norm(a.value) == "None" for a in walk_local(f.node)),
              "G-PAIR", "UnitsContainer.__setstate__|hash-reset", f.loc(), "restored state starts without a cached hash", "__setstate__ no longer resets the cached hash")
@@ -196,7 +196,7 @@ def run(ck, ix, tier):
                              f"`{norm(a)}` can scale exponents by 0 and keep the zero entries (u ** 0 would not be dimensionless)")
                 else:
                     ck.check(False, "G-CANON", f"exponent-update-kind|{key}", m.loc(a), "", f"unrecognised exponent update `{norm(a)}`")
-    ck.floor("G-CANON", n_can, 4, "in-place exponent updates")
+    ck.floor("G-CANON", n_can, 2, "in-place exponent updates")
     # add(): store only non-zero, remove with default
     f = uc.methods["add"]
     ck.analysed(f)
